@@ -214,10 +214,20 @@ def Msg.isWcSet : Msg → Bool
   | .wcSet _ _ => true
   | _ => false
 
-/-- messages built by the library whose verb no `can_handle` tests (finding D4) -/
-def Msg.orphan : Msg → Bool
-  | .wcSet _ _ | .wcGiveSchedule => true
-  | _ => false
+/-- messages whose verb is not tested by the `can_handle` of a handler class meant for them — computed from the verb
+lists the translator reads out of every `can_handle` (currently SETWC and WCREQ: finding D4) -/
+def Msg.orphan (m : Msg) : Bool :=
+  match m.verb with
+  | some v => m.handlers.any fun k => !k.claims.contains v
+  | none => false
+
+/-- does the regex of the source need the "no `</DESCN><DATAS>` in the payload" hypothesis?  (true while one of the
+first two groups is greedy: finding D3) -/
+def regexNeedsCleanPayload : Bool := regexGreedy.1 || regexGreedy.2.1
+
+/-- does the hello decoder of the source need the "no `|` in the name" hypothesis?  (true while `split` has no
+`maxsplit`: finding D2) -/
+def helloNeedsCleanName : Bool := helloSplitMax.isNone
 
 /-- `lit` occurs in `s` as a contiguous substring -/
 def occurs (lit : Bytes) : Bytes → Bool
